@@ -284,3 +284,28 @@ Proof.
     [rewrite E; apply Permutation_refl|].
   apply Permutation_map. apply Permutation_sym, Permutation_rev.
 Qed.
+
+(* ---- a concrete instance (for the non-vacuity example of Properties/C06.v) ---------- *)
+
+(* the four level-1 leaves, two workers, queue and pipe capacity 2: worker 0 gets
+   items 0 and 3, worker 1 items 1 and 2 *)
+Definition glue_ex_visit_schedule : list act :=
+  [AIsSet 0; AIsSet 1; APut; AFlush; ARecv 0; APut; AFlush; ARecv 1; AIsSet 0; AIsSet 1; APut; AFlush; ARecv 1;
+   APut; AFlush; ARecv 0; AClose; AFeederExit; AJoinThread; ASet; AIsSet 0; ATimeout 0; AIsSet 1; ATimeout 1;
+   AJoin 0; AJoin 1].
+
+Lemma glue_ex_visit :
+  let s := VisitPar.run (fun _ => false) (init (length (spec_leaves (sample_pyramid None 1))) 2 2 2 true)
+             glue_ex_visit_schedule in
+  pc s = PReturned /\ started s = [(3, 0); (2, 1); (1, 1); (0, 0)] /\
+  Permutation [0; 3; 1; 2] (map fst (started s)).
+Proof.
+  cbv zeta.
+  assert (E : started (VisitPar.run (fun _ => false) (init (length (spec_leaves (sample_pyramid None 1))) 2 2 2 true)
+                         glue_ex_visit_schedule) = [(3, 0); (2, 1); (1, 1); (0, 0)]) by (vm_compute; reflexivity).
+  split; [vm_compute; reflexivity|]. split; [exact E|]. rewrite E. cbn [map fst].
+  apply NoDup_Permutation.
+  - repeat constructor; cbn [In]; intuition discriminate.
+  - repeat constructor; cbn [In]; intuition discriminate.
+  - intros x. cbn [In]. tauto.
+Qed.
